@@ -238,6 +238,11 @@ pub struct PointSet {
 /// One structured point set for dimension `d` with about `n` points.
 pub fn point_set(rng: &mut Rng, d: usize, n: usize) -> PointSet {
     let fam = rng.below(12);
+    point_set_fam(rng, d, n, fam)
+}
+
+/// one chosen family (0-3 general, 4 dyadic general, 5.. degenerate families)
+pub fn point_set_fam(rng: &mut Rng, d: usize, n: usize, fam: u64) -> PointSet {
     match fam {
         0 | 1 | 2 | 3 => {
             let r = [4, 8, 16, 50][rng.below(4) as usize];
